@@ -67,3 +67,50 @@ impl VCountMap {
     { unimplemented!() }
 }
 pub struct VPlan3 { pub used_ids: VCountMap }
+
+// ---- prune_repository: execution of the per-pack decision ----
+pub struct IndexPack { pub id: PackId, pub time: Option<Timestamp>, pub size: Option<u32>, pub blobs: Vec<IndexBlob> }
+impl Clone for PrunePack {
+    #[verifier::external_body]
+    fn clone(&self) -> (r: Self) ensures r == *self, { unimplemented!() }
+}
+pub struct VPruneOpts { pub instant_delete: bool }
+// which decisions allow which effect -- THE safety rule of prune's execution phase
+pub open spec fn stays_live(t: PackToDo) -> bool { t == PackToDo::Keep || t == PackToDo::Recover }
+pub open spec fn may_be_marked(t: PackToDo) -> bool { t == PackToDo::Repack || t == PackToDo::MarkDelete || t == PackToDo::KeepMarked || t == PackToDo::KeepMarkedAndCorrect }
+pub open spec fn may_be_removed(t: PackToDo) -> bool { may_be_marked(t) || t == PackToDo::Delete }
+// the new index under construction (Indexer::add = live section, add_remove = packs_to_delete section)
+pub struct VIndexerLog { pub _opaque: u64 }
+impl VIndexerLog {
+    #[verifier::external_body]
+    pub fn vadd(&mut self, pack: IndexPack, Ghost(decision): Ghost<PackToDo>) -> (r: RusticResult<()>)
+        requires stays_live(decision),
+    { unimplemented!() }
+    #[verifier::external_body]
+    pub fn vadd_remove(&mut self, pack: IndexPack, Ghost(decision): Ghost<PackToDo>) -> (r: RusticResult<()>)
+        requires may_be_marked(decision),
+    { unimplemented!() }
+}
+// the closure `delete_pack` (pushes the id onto the list of packs removed at the end of prune)
+pub struct VRemoved { pub _opaque: u64 }
+impl VRemoved {
+    #[verifier::external_body]
+    pub fn vdelete_pack(&mut self, pack: &PrunePack)
+        requires may_be_removed(pack.to_do),
+    { unimplemented!() }
+}
+pub open spec fn bid(b: IndexBlob) -> u64 { b._opaque }
+pub struct VUsedSet { pub s: Ghost<Set<u64>> }
+// pack.blobs.retain(|blob| used_ids.remove(&blob.id).is_some()): keeps the first occurrence of every blob that is still
+// needed and strikes it from used_ids (ASSUMED contract of Vec::retain with THIS closure literal)
+#[verifier::external_body]
+pub fn vretain_still_used(blobs: &mut Vec<IndexBlob>, used: &mut VUsedSet)
+    ensures
+        forall|b: IndexBlob| old(blobs)@.contains(b) && old(used).s@.contains(bid(b)) ==> exists|j: int| 0 <= j < final(blobs)@.len() && bid(#[trigger] final(blobs)@[j]) == bid(b),
+        forall|j: int| 0 <= j < final(blobs)@.len() ==> old(blobs)@.contains(#[trigger] final(blobs)@[j]) && old(used).s@.contains(bid(final(blobs)@[j])),
+        forall|k: u64| final(used).s@.contains(k) <==> old(used).s@.contains(k) && !(exists|j: int| 0 <= j < old(blobs)@.len() && bid(#[trigger] old(blobs)@[j]) == k),
+{ unimplemented!() }
+#[verifier::external_body]
+pub fn vsort_blobs_c02(blobs: &mut Vec<IndexBlob>)
+    ensures final(blobs)@.to_multiset() == old(blobs)@.to_multiset(), final(blobs)@.len() == old(blobs)@.len(),
+{ unimplemented!() }
